@@ -106,7 +106,23 @@ def gen_sparse_layer(rng):
     return items, o
 
 
+def gen_huge_layer(rng):
+    """positions of the magnitude of epoch milliseconds (an engine fed raw timestamps): wide labels that conflict by a little — a tolerance that
+    grows with the magnitude of the positions would swallow such conflicts"""
+    n = rng.choice([2, 3, 5, 8])
+    base = rng.choice([1.7e12, 9.4e11, 2.5e13])
+    w = rng.choice([8.64e7, 3.6e6, 1000.0])
+    items, x = [], base
+    for _ in range(n):
+        items.append((x, w, rng.random() < 0.2))
+        x += w + rng.choice([-100.0, -3.0, -0.5, 0.0, 40.0, w / 2])
+    rng.shuffle(items)
+    return items, {"nodeSpacing": rng.choice([3, 0, 1]), "minPos": None, "maxPos": None}
+
+
 def gen_layer(rng, tier):
+    if rng.random() < 0.04:
+        return gen_huge_layer(rng)
     if rng.random() < 0.12:
         return gen_sparse_layer(rng)
     big = tier != "quick"
